@@ -39,8 +39,11 @@ def main():
              loops={0: lambda C: C.v.c == cnt(l_at(C.self.agents.t, C.self.agents.z), C.st.heap_arr_cf('ToyAgent', 'state'), C.state, C.k)})
     contract('ToyModel.bad_index', file=f, src_name='Model.bad_index', params=dict(self=TRef('ToyModel'), i=INT), returns=INT,
              requires=lambda C: nonnull(C.self))
+    # a contradictory precondition: everything would verify vacuously -- the canary must fire
+    contract('ToyModel.vacuous', file=f, src_name='Model.bad_index', params=dict(self=TRef('ToyModel'), i=INT), returns=INT,
+             requires=lambda C: And(nonnull(C.self), C.i > 0, C.i < 0))
     expect = {'ToyModel.find': set(), 'ToyModel.find_bad': {'post'}, 'ToyModel.count_state': set(),
-              'ToyModel.bad_index': {'noexc.IndexError'}}
+              'ToyModel.bad_index': {'noexc.IndexError'}, 'ToyModel.vacuous': {'CANARY'}}
     ok = True
     n = 0
     for q, bad_expected in expect.items():
@@ -51,6 +54,10 @@ def main():
         for ob in ex.obligations:
             n += 1
             v = discharge(ob, 20)
+            if ob.meta.get('canary'):
+                if v.status == 'discharged':
+                    bad.add('CANARY')
+                continue
             if v.status != 'discharged':
                 bad.add(ob.name.split('/')[-1].split('@')[0].split('#')[0].split('.c')[0])
         if bad != bad_expected:
